@@ -15,6 +15,7 @@ import (
 	"strings"
 	"testing"
 
+	"github.com/RoaringBitmap/roaring/v2"
 	"github.com/grafana/regexp"
 	"github.com/sourcegraph/zoekt"
 	"github.com/sourcegraph/zoekt/index"
@@ -161,6 +162,35 @@ func TestVerifC10E2E(t *testing.T) {
 		{"branch:main-only", query.NewAnd(&query.Branch{Pattern: "main"}, &query.Not{Child: &query.Branch{Pattern: "dev"}})},
 		{"repo:r1", query.NewAnd(&query.Repo{Regexp: regexp.MustCompile("r1")}, &query.Substring{Pattern: "needle"})},
 		{"skipped", &query.Substring{Pattern: "NOT-INDEXED"}},
+	}
+	// repository filters (added for C18/C10: "results do not depend on whether repositories share a compound shard"): every
+	// single repository and first+last, as RepoSet / RepoIDs / Repo regexp / single-branch BranchesRepos, alone at the top level and
+	// in a top-level And — in the compound builds the selected repositories are a strict subset of the shard's repositories
+	// (first only, a later one only, first and last), so the filter must NOT be dropped there.
+	{
+		type bq = struct {
+			name string
+			q    query.Q
+		}
+		ids := func(xs ...uint32) *roaring.Bitmap { return roaring.BitmapOf(xs...) }
+		for j := 0; j < 3; j++ {
+			nm, id := fmt.Sprintf("r%d", j), uint32(j+1)
+			battery = append(battery,
+				bq{"reposet:" + nm, &query.RepoSet{Set: map[string]bool{nm: true}}},
+				bq{"reposet:" + nm + "&sub", query.NewAnd(&query.RepoSet{Set: map[string]bool{nm: true}}, &query.Substring{Pattern: "a"})},
+				bq{"repoids:" + nm, &query.RepoIDs{Repos: ids(id)}},
+				bq{"repoids:" + nm + "&sub", query.NewAnd(&query.Substring{Pattern: "needle"}, &query.RepoIDs{Repos: ids(id)})},
+				bq{"repo:^" + nm + "$", &query.Repo{Regexp: regexp.MustCompile("^" + nm + "$")}},
+				bq{"branchesrepos:main:" + nm, &query.BranchesRepos{List: []query.BranchRepos{{Branch: "main", Repos: ids(id)}}}},
+				bq{"branchesrepos:dev:" + nm + "&sub", query.NewAnd(&query.BranchesRepos{List: []query.BranchRepos{{Branch: "dev", Repos: ids(id)}}}, &query.Substring{Pattern: "a"})},
+			)
+		}
+		battery = append(battery,
+			bq{"reposet:r0,r2", &query.RepoSet{Set: map[string]bool{"r0": true, "r2": true}}},
+			bq{"repoids:r0,r2&sub", query.NewAnd(&query.RepoIDs{Repos: ids(1, 3)}, &query.Substring{Pattern: "a"})},
+			bq{"repo:r[02]", query.NewAnd(&query.Repo{Regexp: regexp.MustCompile("^r[02]$")}, &query.Substring{Pattern: "e"})},
+			bq{"branchesrepos:main:r0,r2", &query.BranchesRepos{List: []query.BranchRepos{{Branch: "main", Repos: ids(1, 3)}}}},
+		)
 	}
 	for ci := 0; ci < nc; ci++ {
 		// ---- corpus
